@@ -45,6 +45,15 @@ static void cstl_vector_set_capacity(
     assert(sz >= v->count);
 
     /*
+     * refuse a capacity whose byte count, (sz + 1) * size, cannot
+     * be represented: the product would wrap and a small buffer
+     * would be paired with a huge reported capacity
+     */
+    if (v->elem.size != 0 && sz >= SIZE_MAX / v->elem.size) {
+        return;
+    }
+
+    /*
      * the vector always (quietly) stores space for one extra
      * element at the end to use as scratch space for exchanging
      * elements during sort and reverse operations
